@@ -41,6 +41,17 @@ CLAIMED = {
          "inputs of the model); mod_redirect/mod_alias/vhost composition not yet modelled (mod_alias prefix/docroot join is covered under C02)",
     technique="Coq proof over executable model + differential correspondence (extracted OCaml vs C harness with real PCRE2)",
     design="5/C20"),
+ "C17": dict(
+    text="Coq refinement of an executable chunk-queue model (chunk list + bytes_in/out, memory/file/temp-file chunks, layout oracle) to a FIFO "
+         "byte-string spec: every deterministic operation (append mem/file/queue, steal, steal-with-tempfiles, mark_written, compact, range "
+         "duplication, squash, remove-finished, reset) commutes with the spec for every layout; for every operation sequence length = bytes "
+         "not consumed; append-to-tempfile under every fault script keeps old bytes + a prefix and exact accounting; tied to chunk.c by "
+         "differential correspondence on random operation sequences with injected pwrite/pwritev faults",
+    note="trusted: Coq kernel, extraction, harness glue (--wrap fault injector), python byte-string monitor; allocator-dependent chunk layout is an "
+         "oracle argument; steal_with_tempfiles is modelled without hard write errors (those lines are judged by the monitor: error surfaced + "
+         "consistent accounting); temp-file unlink/descriptor release after reset is observed (dir listing, /proc/self/fd), not proven",
+    technique="Coq refinement proof over executable model + differential correspondence with fault injection (extracted OCaml vs C harness)",
+    design="5/C17"),
 }
 NOT_YET = "no check built yet in this round (planned, see DESIGN.md section 5)"
 
